@@ -43,6 +43,7 @@ type Behaviour struct {
 	Ensures  []*Clause
 	Assigns  []*Clause
 	HasAssigns bool
+	AssignsAny bool // `assigns anything`: the function (through calls whose effects are unknown) may change any memory
 	Loops    map[int]*LoopSpec
 	Asserts  map[string][]*Clause // keyed program point
 	Panics   []*Clause            // "panics when"
@@ -62,6 +63,7 @@ type Contract struct {
 	Trusted  bool // contract assumed, body not verified (external or out of subset)
 	Overflow bool // generate overflow side obligations
 	NoPanic  bool
+	Partial  bool // partial correctness: the postconditions are proved for the executions that return; run-time panics are not excluded
 	Common   *Behaviour
 	Behs     []*Behaviour
 	Props    []string // property ids this contract serves
@@ -107,7 +109,7 @@ type SpecFile struct {
 	Axioms    []*Axiom
 }
 
-var kwRe = regexp.MustCompile(`^(triggered|purepkg|pure|instantiate|opaque|uses|manual|keeps|macro|ghost|func|requires|ensures|assigns|invariant|loop|behaviour|behavior|spec|axiom|lemma|decreases|inline|trusted|overflow|nopanic|props|panics|assert|rec)\b`)
+var kwRe = regexp.MustCompile(`^(triggered|purepkg|pure|instantiate|opaque|uses|manual|keeps|macro|ghost|func|requires|ensures|assigns|invariant|loop|behaviour|behavior|spec|axiom|lemma|decreases|inline|trusted|overflow|nopanic|partial|props|panics|assert|rec)\b`)
 
 var readsRe = regexp.MustCompile(`\s+reads\s*\{([^}]*)\}\s*`)
 
@@ -192,7 +194,7 @@ func ParseSpecFile(path, pkg string) (*SpecFile, error) {
 			sf.Contracts = append(sf.Contracts, cur)
 		case "purepkg":
 			sf.PurePkgs = append(sf.PurePkgs, strings.Fields(rest)...)
-		case "inline", "trusted", "overflow", "nopanic", "pure":
+		case "inline", "trusted", "overflow", "nopanic", "pure", "partial":
 			if err := needBeh(); err != nil {
 				return nil, err
 			}
@@ -207,6 +209,8 @@ func ParseSpecFile(path, pkg string) (*SpecFile, error) {
 				cur.Overflow = true
 			case "nopanic":
 				cur.NoPanic = true
+			case "partial":
+				cur.Partial = true
 			}
 		case "props":
 			if cur != nil {
@@ -267,6 +271,10 @@ func ParseSpecFile(path, pkg string) (*SpecFile, error) {
 			if kw == "assigns" {
 				beh.HasAssigns = true
 				if rest == "nothing" {
+					continue
+				}
+				if rest == "anything" {
+					beh.AssignsAny = true
 					continue
 				}
 				for _, part := range splitTop(rest) {
